@@ -190,7 +190,13 @@ def check_aas_example(file_path: str, state_manager: ComplianceToolStateManager,
     checker = AASDataChecker(raise_immediately=False, **kwargs)
 
     state_manager.add_step('Check if data is equal to example data')
-    checker.check_object_store(obj_store, create_example())
+    try:
+        checker.check_object_store(obj_store, create_example())
+    except NotImplementedError as error:
+        # AASDataChecker cannot compare a SubmodelElementList with order_relevant=False; the example has none
+        state_manager.set_step_status(Status.FAILED)
+        logging.getLogger('compliance_check').error(error)
+        return
 
     state_manager.add_log_records_from_data_checker(checker)
 
@@ -227,7 +233,7 @@ def check_xml_files_equivalence(file_path_1: str, file_path_2: str, state_manage
     try:
         state_manager.add_step('Check if data in files are equal')
         checker.check_object_store(obj_store_1, obj_store_2)
-    except (KeyError, AssertionError) as error:
+    except (KeyError, AssertionError, NotImplementedError) as error:
         state_manager.set_step_status(Status.FAILED)
         logger.error(error)
         return
